@@ -269,6 +269,19 @@ class PhaseField(_Simu):
             initcsr = sparse.csr_matrix(self.__Kd.shape)
             return self.__Kd.copy(), initcsr, initcsr, self.__Fd.copy()
 
+    @property
+    def mesh(self) -> Mesh:
+        return _Simu.mesh.fget(self)
+
+    @mesh.setter
+    def mesh(self, mesh: Mesh):
+        _Simu.mesh.fset(self, mesh)
+        if isinstance(mesh, Mesh):
+            # the history field belongs to the integration points of the previous mesh: on a new
+            # mesh it means nothing, even when the new mesh has as many elements (same shape)
+            self.__old_psiP_e_pg = {}
+            self.__psiP_e_pg = {}
+
     def _Update(self, observable: Observable, event: str) -> None:
         if isinstance(observable, _IModel):
             self.Need_Update()
